@@ -1049,6 +1049,11 @@ def _estimandizer_defs():
     if not (isinstance(v, ast.BinOp) and isinstance(v.op, ast.Add) and ast.unparse(v.left) == "data_df[baseline_col].copy()"):
         raise TranslateError("add_estimand_baselines: last_election_results")
     out.append(lean_def("last_election_results", [("b", "Rat")], "Rat", "  " + Tr(src, {"data_df[baseline_col].copy()": "b"}).expr(v)))
+    # when a derived baseline estimand is (re)computed: every time its generating function exists (fix F-19) - a frame that has been
+    # through here before already has the column, and `margin` is also what sets the two-party weights
+    guards = [ast.unparse(n.test) for n in ast.walk(ab) if isinstance(n, ast.If) and "baseline_col" in ast.unparse(n.test)]
+    out.append(_strlist("derived_baseline_guard", guards))
+    out.append(_strlist("baseline_weights_reset", [ast.unparse(s_) for s_ in ab.body if isinstance(s_, ast.Assign) and "add_weights" in ast.unparse(s_)]))
     aw = _find(tree, cls, "add_weights")
     out.append(_strlist("default_weights", [ast.unparse(s) for s in aw.body if isinstance(s, ast.Assign)]))
     return out
